@@ -43,6 +43,10 @@ class TSpec:
     def fresh(self, name, path):
         raise NotImplementedError
 
+    def candidates(self, name):
+        """concrete instantiations offered to the (bounded) counterexample search; never used for proving"""
+        return []
+
     def src(self, name, model):
         raise NotImplementedError
 
@@ -112,6 +116,12 @@ class TTuple(TSpec):
 
     def cases(self):
         return [type(self)(*combo) for combo in itertools.product(*[t.cases() for t in self.items])]
+
+    def candidates(self, name):
+        out = []
+        for i, t in enumerate(self.items):
+            out.extend(t.candidates(f"{name}_{i}"))
+        return out
 
 
 class TList(TTuple):
@@ -203,7 +213,31 @@ class TArr(TSpec):
         return s
 
 
+class TRot(TSpec):
+    """a single scipy Rotation: symbolic 3x3 matrix with the SO(3) invariant as an optional hypothesis group"""
+
+    def __init__(self, so3=True):
+        self.so3 = so3
+
+    def fresh(self, name, path):
+        from .rotation import RotV
+        return RotV.symbolic(name, path, self.so3)
+
+    def candidates(self, name):
+        mats = [((1, 0, 0), (0, 1, 0), (0, 0, 1)), ((0, -1, 0), (1, 0, 0), (0, 0, 1)),
+                ((0, 0, 1), (0, 1, 0), (-1, 0, 0)), ((1, 0, 0), (0, 0, -1), (0, 1, 0))]
+        return [{f"{name}_m{i}{j}": m[i][j] for i in range(3) for j in range(3)} for m in mats]
+
+    def src(self, name, model):
+        rows = []
+        for i in range(3):
+            rows.append("[" + ", ".join(_num_src(Fraction(_mget(model, f"{name}_m{i}{j}", 1 if i == j else 0)))
+                                        for j in range(3)) + "]")
+        return f"_rotation_from_matrix([{', '.join(rows)}])"
+
+
 class T:
+    Rot = TRot
     Int, Real, Bool, Tuple, List, Const, OneOf, Slice, Vec, Arr = (
         TInt, TReal, TBool, TTuple, TList, TConst, TOneOf, TSlice, TVec, TArr)
 
@@ -308,8 +342,15 @@ def _parse(text):
 # ---------------------------------------------------------------------------
 # spec helpers available in every clause (work on symbolic and concrete values)
 
-def forall(fn, *ranges):
+def _callable(interp, fn):
+    if isinstance(fn, (X.Closure, X.RepoFunc, X.BoundMethod)):
+        return lambda *a: interp.call(fn, list(a), {})
+    return fn
+
+
+def forall(interp, fn, *ranges):
     """forall(lambda i, j: body, (lo, hi), (lo, hi)) with hi exclusive. Symbolically a real quantifier."""
+    fn = _callable(interp, fn)
     n = len(ranges)
     if all(not is_sym(lo) and not is_sym(hi) for lo, hi in ranges) and \
             all((hi - lo) <= 64 for lo, hi in ranges):
@@ -324,7 +365,8 @@ def forall(fn, *ranges):
     return Sym(z3.ForAll(names, z3.Implies(rng, V._bool_term(body) if is_sym(body) else z3.BoolVal(bool(body)))))
 
 
-def forall_real(fn, n=1):
+def forall_real(interp, fn, n=1):
+    fn = _callable(interp, fn)
     names = [z3.Real(V.fresh_name("qr")) for _ in range(n)]
     body = fn(*[Sym(v) for v in names])
     return Sym(z3.ForAll(names, V._bool_term(body) if is_sym(body) else z3.BoolVal(bool(body))))
@@ -342,7 +384,11 @@ def _fftindex(i, n):
     return V.ite(V.compare("<=", i, V.arith("//", V.arith("-", n, 1), 2)), i, V.arith("-", i, n))
 
 
+forall._wants_interp = True
+forall_real._wants_interp = True
+
 HELPERS = {
+    "close": lambda a, b, tol=None: V.compare("==", a, b),
     "forall": forall, "forall_real": forall_real, "implies": V.implies, "ite": V.ite, "shape_eq": shape_eq,
     "fftindex": _fftindex, "trunc": V.trunc, "floor": V.floor_, "ceil": V.ceil_, "iff": lambda a, b: V.compare("==", a, b)
     if (V.kind_of(a) == "bool" and V.kind_of(b) == "bool") else V.sand(V.implies(a, b), V.implies(b, a)),
